@@ -98,13 +98,54 @@ def _search_run(ctx, n, cases):
     env = dict(VERIF_SEED=str(ctx.seed), VERIF_TIER=ctx.tier, VERIF_CORPUS=os.path.join(vlib.VERIF, 'corpus', ctx.pid),
                GOMEMLIMIT='8GiB')
     rc, so, se = vlib.run([binp, 'mode=search', 'n=%d' % n, 'cases=%d' % cases], cwd=cwd, env=env,
-                          timeout=3000 if ctx.thorough() else 600)
+                          timeout=3000 if ctx.thorough() else 1500)
     import shutil
     shutil.rmtree(cwd, ignore_errors=True)
+    viol = []
+    for line in so.split('\n'):
+        if line.startswith('VIOL '):
+            try:
+                viol.append(json.loads(line[5:]))
+            except Exception:
+                pass
     for line in so.split('\n'):
         if line.startswith('SEARCH '):
             return json.loads(line[7:]), None
+    if viol:
+        # the run did not finish (time box / crash) but violations were flushed when found
+        return dict(evaluations=0, distinct=0, violations=viol, n=n, cases=cases,
+                    incomplete='searcher exited %d before its summary: %s' % (rc, (se or so)[-300:])), None
     return None, 'searcher exited %d: %s' % (rc, (se or so)[-1500:])
+
+
+def _race_run(ctx):
+    """thorough only — EVIDENCE, not proof: the concurrent batch (and a few N-fold runs) under the Go race
+    detector.  Every reported race is keyed by the go-rangers function at the top of the earlier access."""
+    binp, log = vlib.go_build(ctx, vlib.HARNESS, './cmd/c01', 'c01race', race=True)
+    if not binp:
+        return dict(error='race build failed: ' + log[-800:], races=[])
+    cwd = ctx.scratch('c01race')
+    env = dict(VERIF_SEED=str(ctx.seed), VERIF_CORPUS=os.path.join(vlib.VERIF, 'corpus', ctx.pid), GORACE='halt_on_error=0',
+               GOMEMLIMIT='8GiB')
+    rc, so, se = vlib.run([binp, 'mode=search', 'n=2', 'cases=24', 'conc=12', 'rounds=12'], cwd=cwd, env=env, timeout=1500)
+    import shutil
+    shutil.rmtree(cwd, ignore_errors=True)
+    races = {}
+    for chunk in se.split('WARNING: DATA RACE')[1:]:
+        # stable key: the racing global when the detector names it, else the smallest of the two
+        # go-rangers functions on top of the two stacks (whichever access came first)
+        g = re.search(r"Location is global '([^']+)'", chunk)
+        if g:
+            fn = 'global-' + g.group(1).split('/')[-1]
+        else:
+            tops = []
+            for part in re.split(r'Previous ', chunk)[:2]:
+                m = re.search(r'com\.tuntun\.rangers/node/src/([\w/]+)\.([^\s(]*(?:\([^)]*\))?[\w.]*)\(\)', part)
+                if m:
+                    tops.append(m.group(1).split('/')[-1] + '.' + re.sub(r'[^\w.]', '', m.group(2)))
+            fn = min(tops) if tops else 'unknown'
+        races.setdefault(fn, chunk[:1800] + (' … ' + g.group(0) if g else ''))
+    return dict(races=[dict(function=k, report=v) for k, v in sorted(races.items())], exit=rc)
 
 
 def search(ctx, hints):
@@ -121,7 +162,16 @@ def search(ctx, hints):
         viols.append(dict(key=v['key'], desc=v['desc'],
                           replay=dict(scenario=v['scenario'], outcomes=v['outcomes'][:6],
                                       command='harness/bin/c01 mode=replay file=<scenario.json> n=%d' % n)))
-    return dict(evaluations=res['evaluations'], distinct_nontrivial=res['distinct'], violations=viols,
+    extra = {}
+    if ctx.thorough():
+        rr = _race_run(ctx)
+        extra['race_detector'] = dict(note='evidence, not proof: concurrent block executions under go build -race',
+                                      functions=[r['function'] for r in rr.get('races', [])], error=rr.get('error'))
+        for r in rr.get('races', []):
+            viols.append(dict(key='data-race-' + r['function'],
+                              desc='the Go race detector reports unsynchronised access while blocks are executed concurrently',
+                              replay=dict(report=r['report'], command='go build -race harness/cmd/c01; mode=search conc=12 rounds=12')))
+    return dict(evaluations=res['evaluations'], distinct_nontrivial=res['distinct'], violations=viols, **extra,
                 samples=[dict(note='N-fold re-execution', n=res['n'], cases=res['cases'], kinds=res.get('kinds'), evm=res.get('evm'))])
 
 
